@@ -20,8 +20,9 @@ import sys
 OPS = [
     "solve_plain", "solve_screen", "solve_bias", "solve_tdep", "solve_adaptive", "solve_fail", "solve_abort", "solve_seeded",
     "copy_move", "remesh_copy", "shared_mesh_units", "postprocess", "save_load", "pickle", "edit_restore", "param_eval",
-    "operators", "queries", "threads",
+    "operators", "queries", "threads", "build_unrun",
 ]
+MID = ["solve_plain", "solve_screen", "solve_tdep", "build_unrun", "edit_restore", "copy_move", "postprocess", "save_load"]
 CORE = ["solve_screen", "solve_tdep", "copy_move", "postprocess", "edit_restore", "save_load"]
 
 
@@ -74,6 +75,13 @@ def tother(x, y, z, *, t):
 
     s = 0.9 - 0.4 * t
     return np.stack([-s * (y - 1.0) / 2, s * (x + 2.0) / 2, np.zeros_like(x)], axis=1)
+
+
+def eps_t(r, *, t, vectorized=True):
+    import numpy as np
+
+    r = np.atleast_2d(r)
+    return 1.0 - (0.25 + 0.1 * np.sin(0.9 * t + 0.3)) * np.exp(-((r[:, 0] - 0.8) ** 2 + (r[:, 1] + 0.4) ** 2))
 
 
 def cur(t):
@@ -282,16 +290,27 @@ class Session:
         repr(d)
         _ = d == d.copy()
 
+    def build_unrun(self):
+        # another problem on the same device is set up (not run) and stays alive
+        self.kept = getattr(self, "kept", [])
+        self.kept.append(self.tdgl.TDGLSolver(self.dev, self.opts(include_screening=True, screening_tolerance=1e-2), applied_vector_potential=1.1,
+                                              terminal_currents={"source": 0.2, "drain": -0.2}))
+
     def threads(self):
         import numba
 
         numba.set_num_threads(3)
 
     # ---- reference runs ----
-    def reference(self):
+    def reference(self, mids=()):
         np = self.np
         out = {}
-        s1 = self.tdgl.solve(self.dev, self.O1, applied_vector_potential=self.P_t)
+        # the first reference problem is set up as a documented TDGLSolver object; operations of the history marked 'mid:' happen
+        # between setting it up and running it (e.g. other problems of a sweep prepared or solved in the meantime)
+        solver1 = self.tdgl.TDGLSolver(self.dev, self.O1, applied_vector_potential=self.P_t, disorder_epsilon=eps_t)
+        for op in mids:
+            getattr(self, op)()
+        s1 = solver1.solve()
         out["R1.file"] = digest_solution_file(s1.path)
         pts = np.array([[0.1, 0.2], [1.0, -0.5], [-2.0, 1.0], [0.3, 0.2]])
         h = _h()
@@ -340,7 +359,10 @@ def main():
 
     numba.set_num_threads(2)
     S = Session()
+    mids = [op[4:] for op in history if op.startswith("mid:")]
     for op in history:
+        if op.startswith("mid:"):
+            continue
         try:
             getattr(S, op)()
         except Exception as e:  # an operation of the alphabet succeeds on a correct tree: report which one failed
@@ -349,7 +371,7 @@ def main():
             print("C09SESSION " + json.dumps({"error": f"{op}: {type(e).__name__}: {e}", "tb": traceback.format_exc()[-1500:]}))
             return
     try:
-        out = S.reference()
+        out = S.reference(mids)
     except Exception as e:
         import traceback
 
